@@ -294,6 +294,15 @@ class World:
                      g.convert_to_comp_basis(mode="column_major"), g.convert_to_comp_basis(mode="row_major"),
                      g.convert_basis(c1.comp_basis(mode="column_major")), g.convert_to_comp_basis()] for g in (P["g0"], P["g2n"])] + \
                    [P["g0"].to_kraus_matrices()]
+        if name == "conv_choi2hs":
+            # the inverse conversions read their own cached tables (dict_choi2hs, the conjugate-basis tables)
+            from quara.objects import gate as G
+            out = []
+            for g in (P["g0"], P["g2n"]):
+                ch = g.to_choi_matrix()
+                out += [G.to_hs_from_choi_with_dict(c1, ch), G.to_hs_from_choi_with_sparsity(c1, ch), G.to_hs_from_choi(c1, ch),
+                        G.to_choi_from_hs_with_dict(c1, g.hs), G.to_hs_from_choi_with_dict(c1, ch)]
+            return out
         if name == "conv_povm":
             return [[p.matrices(), p.matrices_with_sparsity(), p.matrix(0), p.calc_eigenvalues(), p.convert_basis(c1.comp_basis())]
                     for p in (P["p0"], P["p1"])]
